@@ -1061,6 +1061,12 @@ fn monitor(w: &World, op: &MOp, pre: &Snap, post: &Snap, code: u32, ret: &[i128]
     if post.next_id < pre.next_id {
         bad.push(fail("C08", "next-id-decreased", format!("{} -> {}", pre.next_id, post.next_id)));
     }
+    if let MOp::Publish { .. } = op {
+        if code == 19 || code == 20 {
+            // the filtering loop must leave only deals whose lock-up succeeds
+            bad.push(fail("C08", "publish-lock-failed", format!("PublishStorageDeals aborted with exit {} while locking funds of deals it had accepted", code)));
+        }
+    }
     if let MOp::Publish { deals, .. } = op {
         if code == 0 {
             let n = ret[0] as usize;
@@ -1307,6 +1313,27 @@ fn gen_op(r: &mut Prng, w: &World, s: &Snap, g: &mut Ghost, epoch: &mut i64, ste
                     d
                 };
                 deals.push(d);
+            }
+            // cumulative lock-up boundary inside one batch: the second deal of the same client / provider
+            // fits exactly, or misses by one attoFIL, on top of the first
+            if deals.len() >= 2 && r.chance(30) {
+                let first = deals[0].clone();
+                let avail = |a: u64| (s.esc(a) - s.lck(a)).max(0);
+                let d1 = &mut deals[1];
+                d1.provider = first.provider;
+                if r.chance(60) {
+                    d1.client = first.client;
+                    let rem = avail(pid(w, first.client)) - (first.ccoll + first.price * (first.end - first.start) as i128);
+                    let fee1 = d1.price * (d1.end - d1.start) as i128;
+                    if rem >= fee1 && d1.price >= 0 {
+                        d1.ccoll = rem - fee1 + r.below(2) as i128;
+                    }
+                } else if first.provider <= 10 {
+                    let rem = avail(pid(w, first.provider)) - first.pcoll;
+                    if rem >= min_pcoll(w, d1.size) {
+                        d1.pcoll = rem + r.below(2) as i128;
+                    }
+                }
             }
             for d in &deals {
                 if g.templates.len() < 12 && !g.templates.contains(d) {
